@@ -260,6 +260,13 @@ def _(d):
     return "start\n" * d + "shout(1)\n" + "end\n" * d
 
 
+@shape("syn-blocks-leading-def", "syn")
+def _(d):
+    # every level opens with a function definition (hoisted, evaluates nothing) before the next block;
+    # the functions are called on the way out so that there are no warnings
+    return "".join(f"start\ndo h{i}() start\nend\n" for i in range(d)) + "shout(1)\n" + "".join(f"h{i}()\nend\n" for i in range(d - 1, -1, -1))
+
+
 @shape("syn-ifs", "syn")
 def _(d):
     return "if to say (true) start\n" * d + "shout(1)\n" + "end\n" * d
